@@ -129,9 +129,20 @@ def bisect_death(exe, args, res, env_extra=None):
 
 
 def load_known():
+    """known_findings.json plus (same format, one file per property while a check is being built)
+    known_findings.d/*.json.  Read-only at run time."""
     path = os.path.join(VERIF, "known_findings.json")
     with open(path) as f:
-        return json.load(f)
+        kf = json.load(f)
+    d = os.path.join(VERIF, "known_findings.d")
+    if os.path.isdir(d):
+        for name in sorted(os.listdir(d)):
+            if name.endswith(".json"):
+                with open(os.path.join(d, name)) as f:
+                    extra = json.load(f)
+                kf.setdefault("findings", []).extend(extra.get("findings", []))
+                kf.setdefault("fixed", []).extend(extra.get("fixed", []))
+    return kf
 
 
 class Check:
